@@ -27,6 +27,21 @@ Theorem c05_binary_time_roundtrip : forall us rest, (Z.abs us < 2 ^ 32 * 8640000
   dec_bin_time (bin_time us ++ rest) = Some (us, rest).
 Proof. exact bin_time_roundtrip. Qed.
 
+(* dates and timestamps: every field up to the microsecond survives both protocols, for every calendar value
+   (the hypotheses hold for every Python date/datetime: year <= 9999, month <= 12, ... microsecond <= 999999) *)
+Theorem c05_binary_datetime_roundtrip : forall y m d h mi s us rest, y < 65536 -> us < 2 ^ 32 ->
+  dec_bin_datetime (bin_datetime y m d h mi s us ++ rest) = Some ((y, m, d, h, mi, s, us), rest).
+Proof. exact bin_datetime_roundtrip. Qed.
+Theorem c05_text_date_roundtrip : forall y m d, y < 10000 -> m < 100 -> d < 100 -> dec_text_date (text_date y m d) = Some (y, m, d).
+Proof. exact text_date_roundtrip. Qed.
+Theorem c05_text_datetime_roundtrip : forall y m d h mi s us,
+  y < 10000 -> m < 100 -> d < 100 -> h < 100 -> mi < 100 -> s < 100 -> us < 1000000 ->
+  dec_text_datetime (text_datetime y m d h mi s us) = Some (y, m, d, h, mi, s, us).
+Proof. exact text_datetime_roundtrip. Qed.
+Example c05_midnight_with_microseconds :
+  dec_bin_datetime (bin_datetime 2000 1 1 0 0 0 5) = Some ((2000, 1, 1, 0, 0, 0, 5), []).
+Proof. reflexivity. Qed.
+
 (* integers of every width: binary (two's complement) and text (decimal) *)
 Theorem c05_binary_int_roundtrip : forall k z, (0 < k)%nat ->
   (- (256 ^ Z.of_nat k) / 2 <= z < 256 ^ Z.of_nat k / 2)%Z ->
